@@ -1,4 +1,5 @@
 import MitmVerif.Model.C37
+import MitmVerif.Model.C37_Addon
 import Driver.WireC36
 import Driver.Proto
 open MitmVerif Driver MitmVerif.C36 MitmVerif.C37 C36Wire
@@ -22,7 +23,7 @@ def readCut (m d : Nat) (oc : String) (b : Bytes) (n : Nat) : String :=
   let r := readAll (converted env) p
   toString r.1.length ++ ":" ++ showEnd r.2
 
-def c37Step (file : Bytes) (line : String) : Bytes × String :=
+def c37File (file : Bytes) (line : String) : Bytes × String :=
   match fields line with
   | ["reset"] => ([], "0")
   | ["noop"] => let f := step file .noop; (f, toString f.length)
@@ -54,4 +55,49 @@ def c37Step (file : Bytes) (line : String) : Bytes × String :=
     | none => (file, "bad-op")
   | _ => (file, "bad-op")
 
-def main : IO Unit := runState c37Step []
+def parseHook (s : String) : Option Hook :=
+  match s with
+  | "request" => some .request | "response" => some .response | "error" => some .error
+  | "websocket_end" => some .websocket_end | "tcp_start" => some .tcp_start | "tcp_end" => some .tcp_end
+  | "tcp_error" => some .tcp_error | "udp_start" => some .udp_start | "udp_end" => some .udp_end
+  | "udp_error" => some .udp_error | "dns_request" => some .dns_request | "dns_response" => some .dns_response
+  | "dns_error" => some .dns_error | _ => none
+
+/-- `fid:m:wire;…` -/
+def parseCands (s : String) : Option (List (Nat × Bool × Value)) :=
+  if s = "-" then some [] else
+  (s.splitOn ";").foldr (fun t acc =>
+    match acc, t.splitOn ":" with
+    | some l, [f, m, w] =>
+      match f.toNat?, parse w with
+      | some fid, some v => some ((fid, m == "1", v) :: l)
+      | _, _ => none
+    | _, _ => none) (some [])
+
+structure St where
+  file : Bytes
+  sv : Save
+
+/-- one input of the addon model applied to (addon state, stream file) -/
+def addonApply (st : St) (i : AddonIn) : St × String :=
+  let r := addonStep st.sv i
+  let f := step st.file r.2
+  (⟨f, r.1⟩, toString f.length)
+
+def c37Step (st : St) (line : String) : St × String :=
+  match fields line with
+  | ["hkinit"] => (⟨[], Save.init⟩, "0")
+  | ["hkstart"] => addonApply st .start
+  | ["hk", h, fid, ws, m, w] =>
+    match parseHook h, fid.toNat?, parse w with
+    | some hk, some n, some v => addonApply st (.hook hk n (ws == "1") (m == "1") v)
+    | _, _, _ => (st, "bad-op")
+  | ["hkdone", cs] =>
+    match parseCands cs with
+    | some l => addonApply st (.done l)
+    | none => (st, "bad-op")
+  | _ =>
+    let r := c37File st.file line
+    (⟨r.1, st.sv⟩, r.2)
+
+def main : IO Unit := runState c37Step ⟨[], Save.init⟩
